@@ -20,7 +20,7 @@ EXPLANATION = (
     'coverage.  It decides that the mechanisms are on every path; it does not '
     'execute histories.')
 FLOORS = {'C01.a': 20, 'C01.b': 8, 'C01.c': 4, 'C01.d': 6, 'C01.e': 2,
-          'C01.f': 6, 'C01.m2': 10}
+          'C01.f': 14, 'C01.m2': 10}
 
 FILES = c08.FILES
 
@@ -436,6 +436,81 @@ def rule_f(ctx):
   ctx.ob('C01.f', f.fq, not problems,
          'the attribute container is attached to the object before _on_init',
          f.loc, '; '.join(problems))
+  # the attribute container is created at the object's own path
+  f = idx.lookup_method(S.OBJECT, '__init__')
+  ctor = [c for c in A.calls_in(f.node) if (A.call_name(c) or '').endswith('Dict')
+          and A.kwarg(c, 'as_object_attributes_container') is not None]
+  problems = []
+  if len(ctor) != 1:
+    problems.append(f'{len(ctor)} attribute-container constructions found')
+  else:
+    rp = A.kwarg(ctor[0], 'root_path')
+    if not (isinstance(rp, ast.Name) and rp.id == 'root_path' and 'root_path' in A.param_names(f.node)):
+      problems.append('attribute container is not created with root_path=root_path: children of an '
+                      'object built at a non-root path get paths relative to the object')
+    ac = A.kwarg(ctor[0], 'as_object_attributes_container')
+    if not (isinstance(ac, ast.Constant) and ac.value is True):
+      problems.append('as_object_attributes_container is not True')
+    sup = [c for c in A.calls_in(f.node) if A.call_name(c) == 'super().__init__']
+    if not sup or not (isinstance(A.kwarg(sup[0], 'root_path'), ast.Name)
+                       and A.kwarg(sup[0], 'root_path').id == 'root_path'):
+      problems.append('root_path is not forwarded to Symbolic.__init__')
+  ctx.ob('C01.f', f.fq + '#container-path', not problems,
+         'Object and its attribute container are created at the same root_path',
+         f.loc, '; '.join(problems))
+  # Symbolic.__init__ stores the given root path
+  f = idx.func(S.SYMBOLIC + '.__init__')
+  ok = any(A.call_name(c) == 'self._set_raw_attr' and len(c.args) == 2
+           and A.const_str(c.args[0]) == '_sym_path' and 'root_path' in A.names_read(c.args[1])
+           for c in A.calls_in(f.node)) and any(
+               A.call_name(c) == 'self._set_raw_attr' and len(c.args) == 2
+               and A.const_str(c.args[0]) == '_sym_parent'
+               and isinstance(c.args[1], ast.Constant) and c.args[1].value is None
+               for c in A.calls_in(f.node))
+  ctx.ob('C01.f', f.fq, ok, 'a new node starts with parent None and path root_path',
+         f.loc, '_sym_path/_sym_parent initialisation changed')
+  # deserialization: children are loaded at KeyPath(<key>, root_path)
+  for cls_fq in (S.LIST, S.DICT):
+    f = idx.lookup_method(cls_fq, 'from_json')
+    problems = []
+    kp = [c for c in A.calls_in(f.node) if (A.call_name(c) or '').endswith('KeyPath')]
+    if not any(len(c.args) == 2 and isinstance(c.args[0], ast.Name)
+               and isinstance(c.args[1], ast.Name) and c.args[1].id == 'root_path' for c in kp):
+      problems.append('children are not loaded at KeyPath(key, root_path)')
+    cc = [c for c in A.calls_in(f.node) if A.call_name(c) == 'cls']
+    if not cc or not (isinstance(A.kwarg(cc[0], 'root_path'), ast.Name)
+                      and A.kwarg(cc[0], 'root_path').id == 'root_path'):
+      problems.append('the container itself is not created at root_path')
+    ctx.ob('C01.f', f.fq, not problems,
+           'from_json creates the container at root_path and each child at KeyPath(key, root_path)',
+           f.loc, '; '.join(problems))
+  # every loop that propagates paths/parents visits all items
+  for cls_fq in (S.LIST, S.DICT, S.OBJECT, S.SYMBOLIC):
+    c = idx.cls(cls_fq)
+    for m in c.methods.values():
+      for lp in [n for n in ast.walk(m.node) if isinstance(n, ast.For)]:
+        if not A.has_call(lp, lambda d: d.endswith('.sym_setpath') or d.endswith('.sym_setparent')):
+          continue
+        problems = []
+        for n in ast.walk(lp):
+          if isinstance(n, (ast.Break, ast.Return)):
+            problems.append(f'early stop at line {n.lineno}')
+          if isinstance(n, ast.If):
+            t = A.unparse(n.test, 200)
+            conts = [x for x in n.body + n.orelse if isinstance(x, ast.Continue)]
+            allowed = ('TopologyAware' in t or 'Symbolic' in t
+                       or (m.name == '_on_change' and t.replace(' ', '') in (
+                           'item.sym_path.key!=idx',)))
+            if not allowed and (conts or A.has_call(n, lambda d: d.endswith('.sym_setpath') or d.endswith('.sym_setparent'))):
+              problems.append(f'propagation conditioned on `{t}`')
+            if m.name == '_on_change' and 'sym_path.key' in t and 'TopologyAware' in t and 'and' in t:
+              pass
+        if 'sym_items' not in A.unparse(lp.iter) and 'sym_values' not in A.unparse(lp.iter):
+          problems.append(f'iterates `{A.unparse(lp.iter)}` instead of the symbolic items')
+        ctx.ob('C01.f', f'{m.fq}#loop@{A.unparse(lp.target)}', not problems,
+               'a loop that propagates path/parent to children visits every '
+               'symbolic item (no early stop, no extra condition)',
+               f'{m.module.relpath}:{lp.lineno}', '; '.join(problems))
   # _sym_parent_for_children
   f = idx.lookup_method(S.DICT, '_sym_parent_for_children')
   problems = []
